@@ -139,12 +139,15 @@ Section WithValidator.
 End WithValidator.
 
 (* The validators the correspondence harness uses (atoms: 0..99 ints, 100+i the
-   string "i", >= 200 objects no validator accepts). *)
+   string "i", 200.. objects no validator accepts, 300+i the float i.0 — equal to
+   the int i for Python but not an int: the harness offers it only to operations
+   that validate before they test membership, and never with VAll). *)
 Inductive vkind := VAll | VInt | VCInt.
 Definition vld_of (k : vkind) (x : Z) : option Z :=
   match k with
   | VAll => Some x
   | VInt => if (0 <=? x) && (x <? 100) then Some x else None
   | VCInt => if (0 <=? x) && (x <? 100) then Some x
-             else if (100 <=? x) && (x <? 200) then Some (x - 100) else None
+             else if (100 <=? x) && (x <? 200) then Some (x - 100)
+             else if (300 <=? x) && (x <? 400) then Some (x - 300) else None
   end.
